@@ -552,6 +552,18 @@ def c13_q1(ctx):
                     if cal.startswith("cfdp_core::filestore::FileStore::") and cal.split("::")[-1] not in ("get_native_path",):
                         ops.append((cal.split("::")[-1], [sstr(a) for a in eb.call(x, tt)[3][1:]]))
             if f is pr[0]:
+                # the operation is never unconditional: it sits behind a probe of the request's first name
+                probes = []
+                for x in blocks:
+                    tx = f.blocks[x]["term"]
+                    if tx["k"] == "switch":
+                        c = eb.operand(tx["discr"])
+                        if c[0] == "call" and (callee_name(c) or "").split("::")[-1] in ("exists", "is_file", "is_dir", "try_exists") and "request.first_filename" in sstr(c):
+                            probes.append(x)
+                opblocks = [x for x in blocks if f.blocks[x]["term"]["k"] == "call" and (ctx.prog.callee_of(f.blocks[x]["term"])[0] or "").startswith("cfdp_core::filestore::FileStore::") and (ctx.prog.callee_of(f.blocks[x]["term"])[0] or "").split("::")[-1] != "get_native_path"]
+                for ob in opblocks:
+                    if not any(pb in dom.get(ob, ()) and pb != ob for pb in probes):
+                        problems.append("the operation of arm %s runs without first probing the request's first name (exists / is_file / is_dir): a request whose precondition does not hold is performed anyway" % var)
                 want, nargs = ACTION_OP.get(var, ("?", 0))
                 if [o for o, _ in ops] != [want]:
                     problems.append("arm %s runs %s (expected exactly %s)" % (var, [o for o, _ in ops], want))
